@@ -142,29 +142,29 @@ def Task.isEval : Task → Bool
 
 /-- `eid in restored_envs` / … / `(eid,lid,vid) in restored_outs`.  The restored sets are read
 from the *tables* of the restored Result, so an `I` record without rows is invisible. -/
-def done (K : List Rec) (t : Task) : Bool :=
-  K.any (fun r => decide (r.key = t.key) && (!t.isEval || decide (0 < r.rows)))
+def done (fx : Bool) (K : List Rec) (t : Task) : Bool :=
+  K.any (fun r => decide (r.key = t.key) && (fx || !t.isEval || decide (0 < r.rows)))
 
 /-- `if obj not in d: d[obj] = len(d)` -/
 def ins (E : List Nat) (x : Nat) : List Nat := if E.contains x then E else E ++ [x]
 
 /-- the loop of `MakeTasks.read`: `E L V` are the dicts `envs lrns vals` (objects in order of
 first sight; the id of an object is its position) -/
-def mkAux (K : List Rec) : List (Nat × Nat × Nat) → List Nat → List Nat → List Nat → List Task
+def mkAux (fx : Bool) (K : List Rec) : List (Nat × Nat × Nat) → List Nat → List Nat → List Nat → List Task
   | [], _, _, _ => []
   | (e, l, v) :: ts, E, L, V =>
     let E' := ins E e
     let L' := ins L l
     let V' := ins V v
-    let t1 := if !E.contains e && !done K (.penv E.length) then [Task.penv E.length] else []
-    let t2 := if !L.contains l && !done K (.plrn L.length) then [Task.plrn L.length] else []
-    let t3 := if !V.contains v && !done K (.pval V.length) then [Task.pval V.length] else []
+    let t1 := if !E.contains e && !done fx K (.penv E.length) then [Task.penv E.length] else []
+    let t2 := if !L.contains l && !done fx K (.plrn L.length) then [Task.plrn L.length] else []
+    let t3 := if !V.contains v && !done fx K (.pval V.length) then [Task.pval V.length] else []
     let t := Task.eval (E'.idxOf e) (L'.idxOf l) (V'.idxOf v)
-    let t4 := if !done K t then [t] else []
-    t1 ++ (t2 ++ (t3 ++ (t4 ++ mkAux K ts E' L' V')))
+    let t4 := if !done fx K t then [t] else []
+    t1 ++ (t2 ++ (t3 ++ (t4 ++ mkAux fx K ts E' L' V')))
 
-def makeTasks (K : List Rec) (triples : List (Nat × Nat × Nat)) : List Task :=
-  mkAux K triples [] [] []
+def makeTasks (fx : Bool) (K : List Rec) (triples : List (Nat × Nat × Nat)) : List Task :=
+  mkAux fx K triples [] [] []
 
 /-! ### Experiment.run, restore branch -/
 
@@ -175,10 +175,14 @@ structure Flags where
   preambleFix : Bool
   /-- fixes/C02-gz-torn-member.diff: drop an incomplete trailing gzip member -/
   repairGz : Bool
+  /-- fixes/C02-finished-triples.diff: the restored Result also names the recorded evaluations that have no rows -/
+  finishedFix : Bool
   deriving DecidableEq, Repr
 
-def Flags.cur : Flags := ⟨false, false, false⟩
-def Flags.fixed : Flags := ⟨true, true, true⟩
+def Flags.cur : Flags := ⟨false, false, false, false⟩
+/-- the three repairs that are committed (d8b22dd, be6d326, a0e1f54) -/
+def Flags.committed : Flags := ⟨true, true, true, false⟩
+def Flags.fixed : Flags := ⟨true, true, true, true⟩
 
 /-- `_drop_torn_tail` for plain files:
 `tail = data[data.rfind(b'\n')+1:]`; nothing to do for an empty tail; a tail that decodes gets
@@ -211,6 +215,113 @@ def restore (fl : Flags) (c : Codec) : Option Bytes → Option Restore
 the repaired code truncates the file to the complete members first -/
 def gzView (fl : Flags) (texts : List Bytes) (j : Nat) (torn : Bool) : Option Bytes :=
   if torn && !fl.repairGz then none else some (serialize (texts.take j))
+
+/-! ### `.gz` result files at byte level
+
+`DiskSink(batch=1)` reopens the file for every record, so every record is its own gzip member (and a run that ends leaves one
+member with an empty payload).  A member is abstract (zlib is not modelled); what the protocol needs from zlib is stated as
+the three laws of `MLaws` about a scanner `scan` that recognises ONE complete member at the front of a byte string. -/
+
+structure Member where
+  /-- what the member decompresses to -/
+  payload : Bytes
+  /-- the compressed bytes in the file -/
+  bytes : Bytes
+  deriving DecidableEq, Repr
+
+def flatM : List Member → Bytes
+  | [] => []
+  | m :: ms => m.bytes ++ flatM ms
+
+def payloadsM : List Member → Bytes
+  | [] => []
+  | m :: ms => m.payload ++ payloadsM ms
+
+/-- `zlib.decompressobj(31)` fed from the start of a member: `some (payload, length)` when a complete member is at the
+front (`eof`; the rest is `unused_data`), `none` when the data ends before the member does or is no member -/
+abbrev MScan := Bytes → Option (Bytes × Nat)
+
+structure MLaws (scan : MScan) (ms : List Member) : Prop where
+  /-- a complete member is recognised whatever follows it -/
+  complete : ∀ m ∈ ms, ∀ rest, scan (m.bytes ++ rest) = some (m.payload, m.bytes.length)
+  /-- a truncated member is never taken for a complete one -/
+  torn : ∀ m ∈ ms, ∀ q, q <+: m.bytes → q ≠ m.bytes → scan q = none
+  ne : ∀ m ∈ ms, m.bytes ≠ []
+
+/-- the member scan of `_drop_torn_tail`: `good` = offset after the last complete member (the 4096-byte chunking of the
+real loop is below the level of this model) -/
+def scanLoop (scan : MScan) : Nat → Bytes → Nat → Nat
+  | 0, _, pos => pos
+  | f + 1, data, pos =>
+    if data.isEmpty then pos
+    else match scan data with
+      | some (_, n) => if n = 0 then pos else scanLoop scan f (data.drop n) (pos + n)
+      | none => pos
+
+def memberScan (scan : MScan) (data : Bytes) : Nat := scanLoop scan (data.length + 1) data 0
+
+/-- `f.truncate(good)` -/
+def gzRepair (scan : MScan) (data : Bytes) : Bytes := data.take (memberScan scan data)
+
+/-- `gzip.open(path).read()`: the payloads of all members; `none` = raises (EOFError / BadGzipFile) when the data does not
+end with a complete member -/
+def gunzipLoop (scan : MScan) : Nat → Bytes → Option Bytes
+  | 0, data => if data.isEmpty then some [] else none
+  | f + 1, data =>
+    if data.isEmpty then some []
+    else match scan data with
+      | some (p, n) => if n = 0 then none else (gunzipLoop scan f (data.drop n)).map (fun rest => p ++ rest)
+      | none => none
+
+def gunzip (scan : MScan) (data : Bytes) : Option Bytes := gunzipLoop scan (data.length + 1) data
+
+/-- the text `Result.from_file` sees for a `.gz` file -/
+def gzText (fl : Flags) (scan : MScan) (data : Bytes) : Option Bytes :=
+  gunzip scan (if fl.repairGz then gzRepair scan data else data)
+
+/-- the members of a file hold the log `L`: one member per record line, members with an empty payload anywhere -/
+inductive PayloadLog (c : Codec) : List Member → List Rec → Prop
+  | nil : PayloadLog c [] []
+  | line {m : Member} {ms : List Member} {r : Rec} {L : List Rec} :
+      m.payload = c.enc r ++ [NL] → PayloadLog c ms L → PayloadLog c (m :: ms) (r :: L)
+  | empty {m : Member} {ms : List Member} {L : List Rec} :
+      m.payload = [] → PayloadLog c ms L → PayloadLog c (m :: ms) L
+
+/-- the concrete scanner of the driver: a table of the members that occur in the real files -/
+def tableScan (tbl : List Member) (data : Bytes) : Option (Bytes × Nat) :=
+  (tbl.find? (fun m => m.bytes.isPrefixOf data)).map (fun m => (m.payload, m.bytes.length))
+
+/-- run-time checkable condition under which `tableScan` satisfies `MLaws`: no member empty, none a prefix of another -/
+def memberTableOK (tbl : List Member) : Bool :=
+  tbl.all (fun m => !m.bytes.isEmpty) &&
+  tbl.all (fun a => tbl.all (fun b => decide (a = b) || !(a.bytes.isPrefixOf b.bytes)))
+
+/-! ### which files are gzip files
+
+DiskSink (`__enter__`), DiskSource (`read`) and `_drop_torn_tail` each decide from the file NAME whether the file is gzip.
+The three source expressions are re-extracted on every run into `Generated/C02GzPredicates.lean`. -/
+
+inductive GzPred where
+  /-- `"lit" in name` -/
+  | contains (lit : Bytes)
+  /-- `name.endswith("lit")` -/
+  | endsWith (lit : Bytes)
+  deriving DecidableEq, Repr
+
+def isInfixB (lit : Bytes) : Bytes → Bool
+  | [] => lit.isEmpty
+  | c :: cs => lit.isPrefixOf (c :: cs) || isInfixB lit cs
+
+def GzPred.eval : GzPred → Bytes → Bool
+  | .contains lit, name => isInfixB lit name
+  | .endsWith lit, name => lit.reverse.isPrefixOf name.reverse
+
+/-- the name shapes the harness generates (UTF-8): r.log, r.log.gz, r.gz.bak, r.gzip, a.gz.d/r.log, "r s é.log",
+"r s é.log.gz", out.d/r.txt, r.gz -/
+def nameShapes : List Bytes :=
+  [[114,46,108,111,103], [114,46,108,111,103,46,103,122], [114,46,103,122,46,98,97,107], [114,46,103,122,105,112],
+   [97,46,103,122,46,100,47,114,46,108,111,103], [114,32,115,32,195,169,46,108,111,103],
+   [114,32,115,32,195,169,46,108,111,103,46,103,122], [111,117,116,46,100,47,114,46,116,120,116], [114,46,103,122]]
 
 /-- records written before the task outputs: version + experiment on a fresh start, nothing
 when restoring (repaired: the experiment line when the restored log does not have one) -/
@@ -245,14 +356,14 @@ structure World where
 
 /-- everything an uninterrupted run writes -/
 def World.universe (w : World) : List Rec :=
-  w.ver :: w.exp :: (makeTasks [] w.triples).filterMap w.out
+  w.ver :: w.exp :: (makeTasks false [] w.triples).filterMap w.out
 
 /-- the run in task order (single process); `none` = restoring raises -/
 def resume (fl : Flags) (w : World) (file : Option Bytes) : Option Outcome :=
   match restore fl w.c file with
   | none => none
   | some R =>
-    let tasks := makeTasks R.K w.triples
+    let tasks := makeTasks fl.finishedFix R.K w.triples
     some (finish w.c R tasks (preamble fl w.ver w.exp R.K) (tasks.filterMap w.out))
 
 /-! ### hypotheses of the theorems -/
@@ -288,6 +399,19 @@ def keysNodup (L : List Rec) : Bool := (L.map (·.key)).Nodup
 /-- a log some (possibly repeatedly interrupted and resumed) run of `w` can have written -/
 def ValidLog (w : World) (L : List Rec) : Prop :=
   (L.map (·.key)).Nodup ∧ (∀ r ∈ L, r ∈ w.universe) ∧ (∀ r, L.head? = some r → r = w.ver)
+
+/-- `F` is a log one completed resumption from the cut `k` of the log `L` can return (any arrival order of the task outputs) -/
+def ResumeStep (fl : Flags) (w : World) (L : List Rec) (k : Nat) (F : List Rec) : Prop :=
+  ∃ R app, restore fl w.c (some (cut w L k)) = some R ∧
+    app.Perm ((makeTasks fl.finishedFix R.K w.triples).filterMap w.out) ∧
+    (finish w.c R (makeTasks fl.finishedFix R.K w.triples) (preamble fl w.ver w.exp R.K) app).final = some F
+
+/-- interruptions in a row: the run on `L` is killed after `k₁` bytes and resumed; the resumed run (which would have written
+`M`) is itself killed after `k₂` bytes of `M` and resumed; … ; the last resumption completes with the log `F` -/
+inductive Chain (fl : Flags) (w : World) : List Nat → List Rec → List Rec → Prop
+  | nil (L : List Rec) : Chain fl w [] L L
+  | cons {k : Nat} {ks : List Nat} {L M F : List Rec} :
+      ResumeStep fl w L k M → Chain fl w ks M F → Chain fl w (k :: ks) L F
 
 /-- every `I` record of the experiment carries at least one row -/
 def NonEmptyI (w : World) : Prop :=
